@@ -483,7 +483,7 @@ def tool_level(ctx, stats):
     quick = ctx.quick()
     t0 = time.time()
     builds = build_tools(ctx, stats)
-    ncases = 3 if quick else 8
+    ncases = 3 if quick else 6
     flavours = ["packdir", "packfile", "tar", "packdir-k"]
     jobs_list = [1, 2, 3, 4, 7, 16, 64, None]
     q_list = [1, 2, 3, 10, 1000, None]
@@ -510,7 +510,7 @@ def tool_level(ctx, stats):
                                   {"kind": "tool", "cmd": cmd, "stderr": err[-2000:]}, found_input=False)
                     continue
                 combos = []
-                n_this = (10 if quick else 40)
+                n_this = (10 if quick else 32)
                 for k in range(n_this):
                     j = jobs_list[k % len(jobs_list)] if k < len(jobs_list) else rng.choice(jobs_list)
                     q = q_list[k % len(q_list)] if k < len(q_list) else rng.choice(q_list)
